@@ -265,7 +265,9 @@ class LiteralMarshaller(AbstractMarshaller[LiteralT], tp.Generic[LiteralT]):
             ValueError: If `val` is not a member of the bound `Literal` type.
         """
         if val in self.values:
-            return val  # type: ignore[return-value]
+            # Emit the declared literal, which is a plain primitive, rather than the
+            #   given object, which may be an instance of a subclass (e.g. an `IntEnum`).
+            return self.values[self.values.index(val)]  # type: ignore[return-value]
 
         raise ValueError(f"{val!r} is not one of {self.values!r}")
 
